@@ -253,7 +253,7 @@ def harnesses(tier):
     for n in (1, 2, 3, 4) + ((5, 6) if T else ()):
         add(h_consolidate, 'consolidate', dict(n=n), 'all ok patterns, failable in 0..n')
     for form in ('add', 'poly', 'mul', 'neg'):
-        for samples, failable in [(1, 0), (2, 0), (3, 1), (3, 2)] + ([(4, 1), (4, 3)] if T else []):
+        for samples, failable in [(1, 0), (2, 0), (3, 1), (3, 2), (2, 2), (2, 3)] + ([(4, 1), (4, 3)] if T else []):
             add(h_formula, 'formula', dict(form=form, samples=samples, failable=failable, tol='abs'), 'symbolic samples, tol in [0,2]')
         add(h_formula, 'formula', dict(form=form, samples=2, failable=0, tol='5%'), 'symbolic samples')
         add(h_formula, 'formula', dict(form=form, samples=2, failable=1, tol='0%'), 'symbolic samples')
